@@ -41,7 +41,7 @@ impl Prop for C05 {
         "model_checking"
     }
     fn rule(&self) -> String {
-        "explicit-state exploration of two concurrent signing sessions A,B of the same signers on the real code: states = (package = per-slot A/B choice x message) x share universes; transitions = Sign(i,P,nonces_X) for every i,P,X, VerifyShare(P,i,z) for every z in the universe U_i of all shares signer i can be made to produce, Aggregate(P,zvec) for EVERY zvec in the product of universes; reference predicate: accepted <=> produced by Sign(i,P,.) for exactly this P. Plus every single-field substitution (message alphabet, each hiding/binding commitment, participant added/removed/swapped, group key, claimed identifier) and the signer-side refusals (missing / differing own entry incl. slot permutations, identity commitments in every slot).".into()
+        "explicit-state exploration of two concurrent signing sessions A,B of the same signers on the real code: states = (package = per-slot A/B choice x message) x share universes; transitions = Sign(i,P,nonces_X) for every i,P,X, VerifyShare(P,i,z) for every z in the universe U_i of all shares signer i can be made to produce, Aggregate(P,zvec) for EVERY zvec in the product of universes; reference predicate: accepted <=> produced by Sign(i,P,.) for exactly this P. Plus every single-field substitution (message alphabet, each hiding/binding commitment, participant added/removed/swapped, group key, claimed identifier) and the signer-side refusals (missing / differing own entry incl. slot permutations, identity commitments in every slot); 1000-byte messages differing in a single byte at 18 offsets or in length; 7 signers with the commitments of each one substituted.".into()
     }
     fn assumptions(&self) -> Vec<String> {
         vec!["two sessions, |S| <= 3; nonces are seeded; accidental equality of distinct shares has negligible probability on the real curves and is checked not to occur".into()]
